@@ -18,10 +18,18 @@ type Env struct {
 	vals  map[ssa.Value]ssa.Value // phi / alloc / freevar cell -> value on this path
 	flags map[string]bool
 	nils  map[ssa.Value]bool // value -> known nil (true) / known non-nil (false) from a test taken on this path
+	// fields: last value stored on this path into a field of an object (`c.err = f()` …
+	// `c.err != nil`), keyed by (resolved base, field index); forgotten at the next call
+	fields map[fieldCell]ssa.Value
+}
+
+type fieldCell struct {
+	base ssa.Value
+	idx  int
 }
 
 func newEnv() *Env {
-	return &Env{vals: map[ssa.Value]ssa.Value{}, flags: map[string]bool{}, nils: map[ssa.Value]bool{}}
+	return &Env{vals: map[ssa.Value]ssa.Value{}, flags: map[string]bool{}, nils: map[ssa.Value]bool{}, fields: map[fieldCell]ssa.Value{}}
 }
 
 func (e *Env) clone() *Env {
@@ -35,6 +43,9 @@ func (e *Env) clone() *Env {
 	for k, v := range e.nils {
 		n.nils[k] = v
 	}
+	for k, v := range e.fields {
+		n.fields[k] = v
+	}
 	return n
 }
 
@@ -45,6 +56,9 @@ func (e *Env) sig() string {
 	}
 	for k, v := range e.nils {
 		parts = append(parts, fmt.Sprintf("nil(%p)=%v", k, v))
+	}
+	for k, v := range e.fields {
+		parts = append(parts, fmt.Sprintf("fld(%p.%d)=%p", k.base, k.idx, v))
 	}
 	for k, v := range e.flags {
 		if v {
@@ -70,6 +84,12 @@ func (e *Env) Resolve(v ssa.Value) ssa.Value {
 				if r, ok := e.vals[x.X]; ok {
 					v = r
 					continue
+				}
+				if fa, isFa := x.X.(*ssa.FieldAddr); isFa && len(e.fields) > 0 {
+					if r, ok := e.fields[fieldCell{e.Resolve(fa.X), fa.Field}]; ok {
+						v = r
+						continue
+					}
 				}
 			}
 			return v
@@ -185,12 +205,18 @@ func (w *Walker) walk(b *ssa.BasicBlock, i int, env *Env, trail []*ssa.BasicBloc
 		if v, ok := in.(ssa.Value); ok && len(env.nils) > 0 {
 			delete(env.nils, v)
 		}
-		// track stores to local cells
+		// track stores to local cells and to fields of objects
 		if st, ok := in.(*ssa.Store); ok {
-			switch st.Addr.(type) {
+			switch a := st.Addr.(type) {
 			case *ssa.Alloc, *ssa.FreeVar:
 				env.vals[st.Addr] = env.Resolve(st.Val)
+			case *ssa.FieldAddr:
+				env.fields[fieldCell{env.Resolve(a.X), a.Field}] = env.Resolve(st.Val)
 			}
+		}
+		// a call may write any field
+		if _, isCall := in.(ssa.CallInstruction); isCall && len(env.fields) > 0 {
+			env.fields = map[fieldCell]ssa.Value{}
 		}
 		if w.OnInstr != nil && w.OnInstr(env, in, trail) {
 			return
